@@ -736,7 +736,11 @@ func checkC13(c *core.Ctx) {
 				}
 				return true
 			})
-			c.Check("R5", name+" records direct field types with value true", p.Pos(f.Pos()), stores >= 2 && allTrue, fmt.Sprintf("%d stores into usage sets, all constant true: %v", stores, allTrue))
+			if stores == 0 {
+				c.Undecide("C13/R5: %s stores nothing into a map[string]bool usage set: how direct field types are recorded is not recognised", name)
+			} else {
+				c.Check("R5", name+" records direct field types with value true", p.Pos(f.Pos()), allTrue, fmt.Sprintf("%d stores into usage sets, all constant true: %v (a false entry would be overwritten or read as 'not used' by the fixpoint)", stores, allTrue))
+			}
 		}
 	}
 	// delta is only raised when an entry is new
